@@ -87,6 +87,9 @@ def spectra(ctx):
               (np.array([0.0, 1.0, 0.0, 0.0, 0.0, 0.0, 0.0, 0.0]), 0.25, [1.25, 1.5, 1.75], 0.0, 'corpus'),
               (np.array([1.0, 1.0]), 1.0, [0.5], 0.05, 'corpus-F03-2'),
               (np.array([2.0]), 0.5, [0.0, 1.0], 0.05, 'corpus')]
+    # source hints: T/dt (or w*dt = 2 pi dt/T), xi, dt at / around every new float constant of the anchored files ([] on the unchanged tree)
+    hv_r = gen.hint_values(ctx, 0.2, 2e4, cap=30, maps=(lambda c: c, lambda c: 6.2831853 / c, lambda c: 1 / c))
+    hv_xi, hv_dt = gen.hint_values(ctx, 0.0, 0.999, cap=10), gen.hint_values(ctx, 1e-3, 1.0, cap=10, maps=(lambda c: c, lambda c: 1 / c))
     for i in range(n_cases + len(corpus)):
         if i < len(corpus):
             a, dt, periods, xi, kind = corpus[i]
@@ -96,6 +99,8 @@ def spectra(ctx):
             n = gen.log_int(rng, 2, 400 if ctx.tier == 'quick' else 3000)
             dyadic_dt = i % 3 == 0
             dt = rng.choice(DYADIC_DTS) if dyadic_dt else (10 ** rng.uniform(-3, 0) if rng.random() < 0.5 else rng.choice([0.01, 0.005, 0.02, 0.1, 0.001]))
+            if hv_dt and not dyadic_dt and rng.random() < 0.15:
+                dt = rng.choice(hv_dt)
             kind, a = record(rng, n, dt)
             npd = rng.randint(1, 6)
             ratios = [math.exp(rng.uniform(math.log(0.2), math.log(2e4))) if rng.random() < 0.55 else rng.choice([0.2, 1, 5.9, 6, 6.1, 20, 5.75, 6.25])
@@ -103,6 +108,8 @@ def spectra(ctx):
             if dyadic_dt:
                 ratios = [round(r * 4) / 4 if r < 100 else float(round(r)) for r in ratios]
                 ratios = [r if r > 0 else 0.25 for r in ratios]
+            if hv_r and rng.random() < 0.3:
+                ratios[rng.randrange(npd)] = rng.choice(hv_r)
             periods = [r * dt for r in ratios]
             if i % 11 == 0:
                 periods = [float(rng.randint(1, 9)) for _ in range(npd)]     # integral periods (also sent as ints below)
@@ -110,6 +117,8 @@ def spectra(ctx):
             if lead0:
                 periods = [0.0] + periods
             xi = rng.choice([0.0, 1e-3, 0.05, 0.3, 0.7, 0.99]) if rng.random() < 0.7 else rng.uniform(0, 0.999)
+            if hv_xi and rng.random() < 0.15:
+                xi = rng.choice(hv_xi)
         P = len(periods)
         parr = np.array(periods, dtype=float)
         ctx.hist('record=' + kind)
@@ -569,6 +578,7 @@ def x2_absmax(ctx):
             x[:, 0] = -np.max(np.abs(x), axis=1)
         small.append(x)
     shapes = [(2, 2 ** 19 + 3), (1200, 700)] if ctx.tier == 'quick' else [(3, 2 ** 20 + 5), (1500, 1000), (2, 2 ** 22 + 1), (5000, 900), (1, 2 ** 21)]
+    shapes = shapes + [(1, c) for c in gen.hint_sizes(ctx, lo=4096, hi=2 ** 23, cap=5)]      # source hints: sizes around every new integer constant
     big = []
     for sh in shapes:
         seed = rng.randrange(2 ** 31)
@@ -605,6 +615,8 @@ def x2_large(ctx):
     rng = ctx.rng
     quick = ctx.tier == 'quick'
     jobs = [(23000, 5, True), (6000, 200, False)] if quick else [(23000, 5, True), (6000, 200, False), (60000, 3, True), (9000, 300, False), (40000, 12, True), (5001, 230, True)]
+    # source hints: record lengths around every new integer constant; period counts that put the number of period x sample cells just above it
+    jobs = jobs + [(m, 5, True) for m in gen.hint_sizes(ctx, lo=3001, hi=150000, cap=4)] + [(6000, c // 6000 + 1, False) for c in gen.hint_sizes(ctx, lo=2 ** 17, hi=6000000, cap=2)]
     for n, P, do_energy in jobs:
         dt = rng.choice([0.01, 0.005, 0.02])
         a = _x2_envelope(rng, n)
@@ -693,7 +705,7 @@ def x2_large(ctx):
             ctx.oracle('C03.e the input energy is non-negative at the end of the record [broadband record, n >= 200, T/dt >= 6, xi >= 0.02]', bool(ie[j] >= -1e-9 * scale),
                        {**inputs, 'period': T}, detail={'final': float(ie[j]), 'peak |series|': scale}, facts=facts)
     # object API on a long record (interpolating branch): s_d/s_v/s_a == the pseudo spectra of the record at the stated step; never below raw
-    for n, ratio in ([(5200, 2)] if quick else [(5200, 2), (12000, 4), (30000, 1), (7001, 8)]):
+    for n, ratio in ([(5200, 2)] if quick else [(5200, 2), (12000, 4), (30000, 1), (7001, 8)]) + [(m, 2) for m in gen.hint_sizes(ctx, lo=3001, hi=100000, cap=3)]:
         dt = rng.choice([0.01, 0.02])
         a = _x2_envelope(rng, n)
         rt = sorted(dt * math.exp(rng.uniform(math.log(8), math.log(300))) for _ in range(4))
@@ -714,7 +726,7 @@ def x2_large(ctx):
             ok = all(res[1][q][j] >= raw[q][j] - (0.0 if T == 0 else 2 * prop_tol(dti, T, ni)) * max(float(raw[q][j]), 1e-300) for j, T in enumerate(rt))
             ctx.oracle(f'C03.d {nm} is never below the value computed from the raw samples', ok, inputs, detail={'object': res[1][q], 'raw': raw[q]})
     # spectrum intensities at their default grids (141 / 241 periods) on a long record
-    for n in ([5500] if quick else [5500, 20000]):
+    for n in ([5500] if quick else [5500, 20000]) + gen.hint_sizes(ctx, lo=3001, hi=60000, cap=3):
         dt = rng.choice([0.01, 0.005])
         a = _x2_envelope(rng, n)
         asig = _x2_aged_cheap(ctx, eqsig.AccSignal, a, dt)
@@ -1028,7 +1040,8 @@ def extras_r5(ctx):
     rng = ctx.rng
     # (a) a HUGE object-level job: npts x periods x up-sampling factor > 2^24 cells.  The step rule target_dt = max(Tmin/20, dt/min_dt_ratio)
     # depends on the shortest period only, so a short period list with the same shortest period gives the same entries, bit for bit
-    for n, npd, ratio in ([(1100, 2000, 8)] if ctx.tier == 'quick' else [(1100, 2000, 8), (2100, 1100, 8), (4200, 1000, 4)]):
+    for n, npd, ratio in ([(1100, 2000, 8)] if ctx.tier == 'quick' else [(1100, 2000, 8), (2100, 1100, 8), (4200, 1000, 4)]) + \
+            [(1100, c // 8800 + 1, 8) for c in gen.hint_sizes(ctx, lo=2 ** 21, hi=21000000, cap=1)]:      # source hints: cells after up-sampling just above a new integer constant
         dt = 0.02
         a = gen.noise_record(rng, n) * np.exp(-((np.arange(n) - n / 3) / (n / 5)) ** 2)
         periods = np.exp(np.linspace(np.log(0.05), np.log(4.0), npd))       # Tmin/20 = 0.0025 = dt/8: up-sampling by 8 is requested
